@@ -280,9 +280,9 @@ Qed.
 Ltac dispatch_fin :=
   let H := fresh "H" in
   intro H;
-  first [ inversion H; subst; eexists; split; [simpl; eauto 10 | exact I]
+  first [ inversion H; subst; (eexists; split; [simpl; eauto 10 | exact I])
         | apply by_kind_inv in H; destruct H as [[-> ->]|[-> ->]];
-          eexists; split; [simpl; eauto 10 | reflexivity] ].
+          (eexists; split; [simpl; eauto 10 | simpl; reflexivity]) ].
 
 Ltac dispatch_step :=
   match goal with
@@ -327,7 +327,10 @@ Proof.
 Qed.
 
 Lemma stats_members_known t : Forall (fun e => In e all_enums) (stats_enum_members t).
-Proof. destruct t; simpl; repeat constructor; simpl; tauto. Qed.
+Proof.
+  destruct t; simpl; repeat apply Forall_cons; try apply Forall_nil;
+    unfold all_enums; repeat (first [left; reflexivity | right]).
+Qed.
 
 Lemma stats_roundtrip_ok s :
   in_domain (PStats s) -> ~ defect (PStats s) -> roundtrips (PStats s).
